@@ -247,12 +247,13 @@ def run_case(ctx, kind, rng, idx):
                     return False
                 dm = np.minimum(dm, D[:, c])
             return True
-        if (ci2 != ci or not same_d) and len(ci2) == len(ci) and \
-                valid_greedy(ci) and valid_greedy(ci2) and any(
-                    abs(D[a, b] - D[a, c]) <= 1e-9 * (1 + D[a, b])
-                    for a in range(n) for b, c in zip(ci, ci2) if b != c):
-            # both runs follow the greedy rule; they broke a rounding-level
-            # tie between equally far frames differently
+        # the shortcut run must be self-consistent in its own right
+        # (distances are true distances to its own centers)
+        ok2 = cc.check_result(ctx, X, mname, res2, 'kcenters.shortcut-result')
+        if ci2 != ci and ok2 and valid_greedy(ci) and valid_greedy(ci2):
+            # both runs follow the greedy rule and report true distances;
+            # they broke a rounding-level tie between equally far frames
+            # differently
             ctx.count('ambiguous_farthest_ties')
         elif ci2 != ci or not same_d:
             ctx.violation('kcenters.shortcut-differs',
